@@ -30,6 +30,9 @@ type writerLoop struct {
 	wids   types.Object // slice of row ids to write
 	delta  types.Object // accumulated hash delta
 	ntype  string
+	// searchAnchor is where the stored points are searched (the nested loop, or the
+	// statement of the merge loop that hands them to a search helper).
+	searchAnchor ast.Node
 }
 
 func (wl *writerLoop) obj(e ast.Expr) types.Object { return kit.ObjOf(wl.f.Info(), e) }
@@ -114,8 +117,51 @@ func newWriterLoop(c *kit.Ctx, m *storeModel, w *pointWriter) *writerLoop {
 		}
 		return true
 	})
-	if wl.dbLoop == nil {
-		c.Fatalf("%s: no loop over the stored points inside the merge loop", f.Name)
+	if wl.dbLoop != nil {
+		wl.searchAnchor = wl.dbLoop
+	} else {
+		// the search may live in a helper (findStoredPoint(stored, p)): the stored points are
+		// then the one Points-typed local, other than the batch and the points to write,
+		// that the merge loop mentions
+		cands := map[types.Object]ast.Node{}
+		var order []types.Object
+		var stmtOf func(n ast.Node) ast.Node
+		stmtOf = func(n ast.Node) ast.Node {
+			for n != nil {
+				if _, ok := n.(ast.Stmt); ok {
+					return n
+				}
+				n = c.P.Parent(f.File, n)
+			}
+			return nil
+		}
+		ast.Inspect(wl.inLoop.Body, func(n ast.Node) bool {
+			id, ok := n.(*ast.Ident)
+			if !ok {
+				return true
+			}
+			o, ok := info.Uses[id].(*types.Var)
+			if !ok || o.IsField() || types.Object(o) == types.Object(w.Batch) || types.Object(o) == wl.wp || types.Object(o) == wl.in {
+				return true
+			}
+			isPts := kit.IsNamedType(o.Type(), dataPkg, "Points")
+			if sl, ok := o.Type().Underlying().(*types.Slice); ok && kit.IsNamedType(sl.Elem(), dataPkg, "Point") {
+				isPts = true
+			}
+			if isPts && cands[o] == nil {
+				cands[o] = stmtOf(id)
+				order = append(order, o)
+			}
+			return true
+		})
+		if len(order) != 1 {
+			c.Fatalf("%s: no loop over the stored points inside the merge loop (and %d candidate stored-point slices handed to helpers)", f.Name, len(order))
+		}
+		wl.dbPts = order[0]
+		wl.searchAnchor = cands[order[0]]
+		if wl.searchAnchor == nil {
+			wl.searchAnchor = wl.inLoop
+		}
 	}
 	// delta: variable XOR-assigned with <x>.CRC() inside inLoop
 	ast.Inspect(wl.inLoop.Body, func(n ast.Node) bool {
@@ -172,11 +218,65 @@ func (wl *writerLoop) run(v mergeVal) *mergeOutcome {
 	info := f.Info()
 	out := &mergeOutcome{}
 	st := &kit.Std{F: f}
-	isIn := func(e ast.Expr) bool { return wl.obj(e) == wl.in }
-	isDb := func(e ast.Expr) bool { return wl.obj(e) == wl.db }
+	// helpers of the package are evaluated inline: normalisation, the search for the
+	// stored point and the time comparison may each live in one
+	st.ShouldInline = func(cf *kit.Func, call *ast.CallExpr) bool {
+		return txParamOf(cf) == nil && wl.m.writerOf(st.Cur(), call) == nil
+	}
+	// a by-value copy of the incoming point inside a helper: callee parameter -> true
+	deref := func(e ast.Expr) ast.Expr {
+		e = ast.Unparen(st.Resolve(e))
+		for {
+			switch x := e.(type) {
+			case *ast.UnaryExpr:
+				if x.Op == token.AND {
+					e = ast.Unparen(st.Resolve(x.X))
+					continue
+				}
+			case *ast.StarExpr:
+				e = ast.Unparen(st.Resolve(x.X))
+				continue
+			}
+			return e
+		}
+	}
+	isIn := func(e ast.Expr) bool { return kit.ObjOf(info, deref(e)) == wl.in }
+	dbVars := map[types.Object]bool{}
+	dbIdxs := map[types.Object]bool{}
+	if wl.db != nil {
+		dbVars[wl.db] = true
+	}
+	if wl.dbIdx != nil {
+		dbIdxs[wl.dbIdx] = true
+	}
+	isDbPts := func(e ast.Expr) bool { return wl.dbPts != nil && kit.ObjOf(info, deref(e)) == wl.dbPts }
+	isDb := func(e ast.Expr) bool {
+		e = deref(e)
+		if o := kit.ObjOf(info, e); o != nil && dbVars[o] {
+			return true
+		}
+		// with at most one stored row in the model, any element of the stored points is that row
+		if ix, ok := e.(*ast.IndexExpr); ok && isDbPts(ix.X) {
+			return true
+		}
+		return false
+	}
 	field := func(e ast.Expr, name string, who func(ast.Expr) bool) bool {
-		sel, ok := ast.Unparen(e).(*ast.SelectorExpr)
+		sel, ok := ast.Unparen(st.Resolve(e)).(*ast.SelectorExpr)
 		return ok && sel.Sel.Name == name && who(sel.X)
+	}
+	// isFirstIdx: the index expression denotes the (only) stored row reached by the search
+	isFirstIdx := func(e ast.Expr, s kit.S) bool {
+		if s.Get("db") != "1" {
+			return false
+		}
+		if o := kit.ObjOf(info, ast.Unparen(st.Resolve(e))); o != nil && dbIdxs[o] {
+			return true
+		}
+		if v, ok := st.FoldExpr(e, s); ok && v.ExactString() == "0" {
+			return true
+		}
+		return false
 	}
 	st.Eval.Atom = func(e ast.Expr) (string, bool, bool) {
 		// equality atoms
@@ -247,9 +347,38 @@ func (wl *writerLoop) run(v mergeVal) *mergeOutcome {
 		sort.Strings(parts)
 		return s.Set("fx", strings.Join(parts, "+"))
 	}
+	// crcOperands lists the operands of a XOR tree of <point>.CRC() calls ("" for anything else)
+	var crcOperands func(e ast.Expr, s kit.S) []string
+	crcOperands = func(e ast.Expr, s kit.S) []string {
+		e = ast.Unparen(e)
+		if be, ok := e.(*ast.BinaryExpr); ok && be.Op == token.XOR {
+			return append(crcOperands(be.X, s), crcOperands(be.Y, s)...)
+		}
+		if call, ok := e.(*ast.CallExpr); ok && len(call.Args) == 0 {
+			if sel, ok := ast.Unparen(call.Fun).(*ast.SelectorExpr); ok && kit.CallIs(info, call, dataPkg+".(Point).CRC", dataPkg+".(*Point).CRC") {
+				switch {
+				case isIn(sel.X):
+					return []string{"x:in"}
+				case isDb(sel.X) && s.Get("db") == "1":
+					return []string{"x:db"}
+				}
+			}
+		}
+		return []string{"x:other"}
+	}
 	st.OnNode = func(n ast.Node, s kit.S) []kit.S {
 		if s.Get("in") != "1" {
 			return []kit.S{s}
+		}
+		inHelper := st.Cur() != f
+		if r, ok := n.(*ast.ReturnStmt); ok && inHelper {
+			// a helper that normalises a copy of the incoming point and hands it back
+			if len(r.Results) == 1 {
+				if o := kit.ObjOf(info, r.Results[0]); o != nil && s.Has("knp:"+kit.VarID(o)) {
+					return []kit.S{s.Set("knret", s.Get("knp:"+kit.VarID(o)))}
+				}
+			}
+			return []kit.S{s.Del("knret")}
 		}
 		as, ok := n.(*ast.AssignStmt)
 		if !ok || len(as.Lhs) != 1 || len(as.Rhs) != 1 {
@@ -258,15 +387,41 @@ func (wl *writerLoop) run(v mergeVal) *mergeOutcome {
 		lhs := as.Lhs[0]
 		// key normalisation: in.Key = "<c>"
 		if field(lhs, "Key", isIn) && as.Tok == token.ASSIGN {
+			val := "?"
 			if cst, ok := kit.ConstString(info, as.Rhs[0]); ok && cst != "" {
-				out.normC = cst
-				return []kit.S{s.Set("kn", cst)}
+				val = cst
 			}
-			return []kit.S{s.Set("kn", "?")}
+			// through a by-value parameter the caller's point changes only if the copy is handed back
+			if sel, ok := ast.Unparen(lhs).(*ast.SelectorExpr); ok && inHelper {
+				if po, ok := kit.ObjOf(info, sel.X).(*types.Var); ok {
+					if _, isPtr := po.Type().Underlying().(*types.Pointer); !isPtr {
+						return []kit.S{s.Set("knp:"+kit.VarID(po), val)}
+					}
+				}
+			}
+			if val != "?" {
+				out.normC = val
+			}
+			return []kit.S{s.Set("kn", val)}
 		}
-		lo := wl.obj(lhs)
+		// in = normalise(in)
+		if !inHelper && isIn(lhs) && as.Tok == token.ASSIGN {
+			if _, isCall := ast.Unparen(as.Rhs[0]).(*ast.CallExpr); isCall && s.Has("knret") {
+				val := s.Get("knret")
+				if val != "?" {
+					out.normC = val
+				}
+				for _, k := range s.Keys() {
+					if strings.HasPrefix(k, "knp:") {
+						s = s.Del(k)
+					}
+				}
+				return []kit.S{s.Del("knret").Set("kn", val)}
+			}
+		}
+		lo := kit.ObjOf(info, deref(lhs))
 		if call, ok := ast.Unparen(as.Rhs[0]).(*ast.CallExpr); ok {
-			if b, ok := kit.Callee(info, call).(*types.Builtin); ok && b.Name() == "append" && len(call.Args) >= 2 && wl.obj(call.Args[0]) == lo {
+			if b, ok := kit.Callee(info, call).(*types.Builtin); ok && b.Name() == "append" && len(call.Args) >= 2 && kit.ObjOf(info, deref(call.Args[0])) == lo {
 				arg := call.Args[1]
 				switch lo {
 				case wl.wp:
@@ -279,12 +434,13 @@ func (wl *writerLoop) run(v mergeVal) *mergeOutcome {
 						s = addFx(s, "wp:other")
 					}
 				case wl.wids:
-					if ix, ok := ast.Unparen(arg).(*ast.IndexExpr); ok {
-						if wl.dbIdx != nil && wl.obj(ix.Index) == wl.dbIdx && s.Get("db") == "1" {
+					if ix, ok := ast.Unparen(st.Resolve(arg)).(*ast.IndexExpr); ok {
+						if isFirstIdx(ix.Index, s) {
+							xo := kit.ObjOf(info, deref(ix.X))
 							if wl.dbIDs == nil {
-								wl.dbIDs = wl.obj(ix.X)
+								wl.dbIDs = xo
 							}
-							if wl.obj(ix.X) == wl.dbIDs {
+							if xo == wl.dbIDs {
 								s = addFx(s, "id:reuse")
 							} else {
 								s = addFx(s, "id:badindex")
@@ -301,18 +457,9 @@ func (wl *writerLoop) run(v mergeVal) *mergeOutcome {
 			}
 		}
 		if as.Tok == token.XOR_ASSIGN && wl.delta != nil && lo == wl.delta {
-			x := "x:other"
-			if call, ok := ast.Unparen(as.Rhs[0]).(*ast.CallExpr); ok && len(call.Args) == 0 {
-				if sel, ok := ast.Unparen(call.Fun).(*ast.SelectorExpr); ok && kit.CallIs(info, call, dataPkg+".(Point).CRC", dataPkg+".(*Point).CRC") {
-					switch {
-					case isIn(sel.X):
-						x = "x:in"
-					case isDb(sel.X) && s.Get("db") == "1":
-						x = "x:db"
-					}
-				}
+			for _, x := range crcOperands(as.Rhs[0], s) {
+				s = addFx(s, x)
 			}
-			s = addFx(s, x)
 		}
 		return []kit.S{s}
 	}
@@ -320,20 +467,38 @@ func (wl *writerLoop) run(v mergeVal) *mergeOutcome {
 		if br.Kind != kit.BrRange {
 			return nil, nil, false
 		}
-		switch br.Range {
-		case wl.inLoop:
-			if !s.Has("in") {
-				return []kit.S{s.Set("in", "1")}, nil, true
-			}
-			return nil, []kit.S{s.Set("in", "done").Del("db")}, true
-		case wl.dbLoop:
+		enterDb := func() (t, fl []kit.S, handled bool) {
 			if s.Get("in") != "1" {
 				return nil, []kit.S{s}, true
 			}
 			if !s.Has("db") && v.rows == 1 {
-				return []kit.S{s.Set("db", "1")}, nil, true
+				s2 := s.Set("db", "1")
+				if br.Range.Key != nil {
+					if o := kit.ObjOf(info, br.Range.Key); o != nil {
+						dbIdxs[o] = true
+						s2 = s2.Set("v:"+kit.VarID(o), "0") // the one stored row has index 0
+					}
+				}
+				if br.Range.Value != nil {
+					if o := kit.ObjOf(info, br.Range.Value); o != nil {
+						dbVars[o] = true
+					}
+				}
+				return []kit.S{s2}, nil, true
 			}
 			return nil, []kit.S{s.Set("db", "done")}, true
+		}
+		switch {
+		case br.Range == wl.inLoop:
+			if !s.Has("in") {
+				return []kit.S{s.Set("in", "1")}, nil, true
+			}
+			return nil, []kit.S{s.Set("in", "done").Del("db")}, true
+		case br.Range == wl.dbLoop && wl.dbLoop != nil:
+			return enterDb()
+		case wl.dbLoop == nil && s.Get("in") == "1" && isDbPts(br.Range.X):
+			// the search loop, wherever it lives
+			return enterDb()
 		}
 		return nil, nil, false
 	}
